@@ -1046,6 +1046,12 @@ func (e *Exec) intrinsic(fr *Frame, st *State, ins ssa.Instruction, callee *ssa.
 			e.fail("__modall on %s", cc.Args[0].Type())
 		}
 		return Val{}, true
+	case "__sorted":
+		// __sorted(s, less): no element is "less" than one before it - the formula the model of sort.Slice assumes
+		if args[1].Clo == nil {
+			e.fail("__sorted: the comparison must be a function literal")
+		}
+		return Val{T: e.sortedFormula(fr, st, args[0].T, args[1].Clo)}, true
 	case "__disjoint":
 		// two slices (or a slice and a string-free buffer) do not share a backing array
 		return Val{T: c.Not(c.Eq(e.tm.SliceBase(args[0].T), e.tm.SliceBase(args[1].T)))}, true
@@ -1201,15 +1207,14 @@ func (e *Exec) sortModel(fr *Frame, st *State, ins ssa.Instruction, name string,
 	tag := fmt.Sprintf("sort.%d.%d", pp.Line, pp.Column)
 	i, j := c.BoundVarNamed(tag+".i", "Int"), c.BoundVarNamed(tag+".j", "Int")
 	guard := c.And(c.Le(c.Int(0), i), c.Lt(i, j), c.Lt(j, ln))
-	var ordered *Term
-	e.pure++
 	if strings.HasPrefix(name, "sort.") {
-		ordered = c.Not(e.callClosure(clo, []Val{{T: j}, {T: i}}, st, fr).T)
+		e.assume(st, e.sortedFormula(fr, st, sv.T, clo))
 	} else {
-		ordered = c.Le(e.callClosure(clo, []Val{elemAt(st, i), elemAt(st, j)}, st, fr).T, c.Int(0))
+		e.pure++
+		ordered := c.Le(e.callClosure(clo, []Val{elemAt(st, i), elemAt(st, j)}, st, fr).T, c.Int(0))
+		e.pure--
+		e.assume(st, c.Forall([]*Term{i, j}, c.Implies(guard, ordered)))
 	}
-	e.pure--
-	e.assume(st, c.Forall([]*Term{i, j}, c.Implies(guard, ordered)))
 	// every element after the call is one of the elements before it
 	e.pure++
 	k := c.BoundVarNamed(tag+".k", "Int")
@@ -1356,4 +1361,19 @@ func isContextCancel(v ssa.Value, depth int) bool {
 func isByteT(t types.Type) bool {
 	b, ok := t.Underlying().(*types.Basic)
 	return ok && b.Kind() == types.Uint8
+}
+
+
+// sortedFormula: forall 0 <= i < j < len(s): !less(j, i), with bound variables named after the slice so that the
+// assumption made after sort.Slice and a __sorted(...) assertion about the same slice and the same comparison are the
+// same term.
+func (e *Exec) sortedFormula(fr *Frame, st *State, s *Term, clo *Closure) *Term {
+	c := e.c
+	tag := fmt.Sprintf("sorted.%d", e.tm.SliceBase(s).id)
+	i, j := c.BoundVarNamed(tag+".i", "Int"), c.BoundVarNamed(tag+".j", "Int")
+	guard := c.And(c.Le(c.Int(0), i), c.Lt(i, j), c.Lt(j, e.tm.SliceLen(s)))
+	e.pure++
+	less := e.callClosure(clo, []Val{{T: j}, {T: i}}, st, fr).T
+	e.pure--
+	return c.Forall([]*Term{i, j}, c.Implies(guard, c.Not(less)))
 }
